@@ -21,6 +21,7 @@ import (
 	"github.com/spf13/cobra"
 
 	"helm.sh/helm/v4/pkg/action"
+	chart "helm.sh/helm/v4/pkg/chart/v2"
 	chartutil "helm.sh/helm/v4/pkg/chart/v2/util"
 	helmcmd "helm.sh/helm/v4/pkg/cmd"
 	"helm.sh/helm/v4/pkg/kube"
@@ -386,7 +387,7 @@ func (x *Exec) runOp(p *Process, op *OpSpec, res *OpResult) {
 		}
 		defer os.RemoveAll(dir)
 		chartDir := filepath.Join(dir, "demo")
-		if derr := chartutil.SaveDir(BuildChart(&x.Plan.Charts[op.Chart]), dir); derr != nil {
+		if derr := chartutil.SaveDir(withRawValues(BuildChart(&x.Plan.Charts[op.Chart])), dir); derr != nil {
 			err = derr
 			break
 		}
@@ -409,6 +410,29 @@ func (x *Exec) runOp(p *Process, op *OpSpec, res *OpResult) {
 			root.SetOut(io.Discard)
 			root.SetErr(io.Discard)
 			err = root.Execute()
+		}
+	case "lint":
+		// helm lint on the chart written to disk, with the operation's values
+		dir, derr := os.MkdirTemp("", "verif-lint-")
+		if derr != nil {
+			err = derr
+			break
+		}
+		defer os.RemoveAll(dir)
+		if derr := chartutil.SaveDir(withRawValues(BuildChart(&x.Plan.Charts[op.Chart])), dir); derr != nil {
+			err = derr
+			break
+		}
+		li := action.NewLint()
+		li.Namespace = x.Plan.Namespace
+		li.SkipSchemaValidation = op.SkipSchema
+		lres := li.Run([]string{filepath.Join(dir, x.Plan.Charts[op.Chart].Name)}, deepCopyMap(op.Values))
+		if len(lres.Errors) > 0 {
+			var msgs []string
+			for _, e := range lres.Errors {
+				msgs = append(msgs, e.Error())
+			}
+			err = fmt.Errorf("lint failed: %s", strings.Join(msgs, "; "))
 		}
 	case "rollback":
 		rb := action.NewRollback(cfg)
@@ -944,4 +968,24 @@ func opFlags(o *OpSpec) string {
 		return ""
 	}
 	return "(" + strings.Join(f, ",") + ")"
+}
+
+// withRawValues gives every chart of the tree a raw values.yaml holding its in-memory defaults: SaveDir writes the
+// values file from the raw files only.
+func withRawValues(c *chart.Chart) *chart.Chart {
+	has := false
+	for _, f := range c.Raw {
+		if f.Name == chartutil.ValuesfileName {
+			has = true
+		}
+	}
+	if !has && len(c.Values) > 0 {
+		if b, err := json.Marshal(c.Values); err == nil {
+			c.Raw = append(c.Raw, &chart.File{Name: chartutil.ValuesfileName, Data: b})
+		}
+	}
+	for _, d := range c.Dependencies() {
+		withRawValues(d)
+	}
+	return c
 }
